@@ -707,3 +707,101 @@ func (c *Ctx) r089(pk *packages.Package) {
 	}
 	c.R.Floor(rule, "scan cursors", nCur, 2)
 }
+
+// R08.10: the bytes the result grows by are written.
+func (c *Ctx) r0810(pk *packages.Package) {
+	const rule = "R08.10"
+	c.R.Rule(rule, "minify.Number prints the exponent by storing its digits behind the mantissa (`for i := end + L - 1; end <= i; i-- { num[i] = … }`) and then extending the result over them (`end += L`). The extension is only sound if the digits were stored on the same path: every path to an `end += L` (L the variable of such a digit loop) passes the condition of the loop that stores num[i] for that L. A shortcut that skips the loop when the exponent `is already there` trusts the input to have been written canonically (`15e05` → `15e0`)")
+	fd := c.fn(rule, pk, "Number")
+	if fd == nil {
+		return
+	}
+	info := pk.TypesInfo
+	g := c.graph(pk, fd)
+	var param types.Object
+	if len(fd.Type.Params.List) > 0 && len(fd.Type.Params.List[0].Names) > 0 {
+		param = info.Defs[fd.Type.Params.List[0].Names[0]]
+	}
+	// digit loops: ForStmt whose init mentions a variable L and whose body stores into the parameter
+	type dloop struct {
+		fs *ast.ForStmt
+		L  types.Object
+	}
+	var loops []dloop
+	ast.Inspect(fd.Body, func(q ast.Node) bool {
+		fs, ok := q.(*ast.ForStmt)
+		if !ok || fs.Init == nil || fs.Cond == nil {
+			return true
+		}
+		stores := flow.Contains(fs.Body, func(z ast.Node) bool {
+			as, ok := z.(*ast.AssignStmt)
+			if !ok {
+				return false
+			}
+			for _, l := range as.Lhs {
+				if ix, ok := l.(*ast.IndexExpr); ok {
+					if id, ok := ast.Unparen(ix.X).(*ast.Ident); ok && info.Uses[id] == param {
+						return true
+					}
+				}
+			}
+			return false
+		})
+		if !stores {
+			return true
+		}
+		ast.Inspect(fs.Init, func(z ast.Node) bool {
+			if as, ok := z.(*ast.AssignStmt); ok {
+				for _, r := range as.Rhs {
+					ast.Inspect(r, func(w ast.Node) bool {
+						if id, ok := w.(*ast.Ident); ok {
+							if v, isVar := info.Uses[id].(*types.Var); isVar && isIntType(v.Type()) && !v.IsField() && v.Name() != "end" {
+								loops = append(loops, dloop{fs, v})
+							}
+						}
+						return true
+					})
+				}
+			}
+			return true
+		})
+		return true
+	})
+	n := 0
+	for _, y := range g.Nodes {
+		as, ok := y.Stmt.(*ast.AssignStmt)
+		if !ok || y.Kind != flow.KStmt || as.Tok != token.ADD_ASSIGN || len(as.Lhs) != 1 {
+			continue
+		}
+		vid, ok := ast.Unparen(as.Rhs[0]).(*ast.Ident)
+		if !ok {
+			continue
+		}
+		L := info.Uses[vid]
+		var mine []*ast.ForStmt
+		for _, dl := range loops {
+			if dl.L == L {
+				mine = append(mine, dl.fs)
+			}
+		}
+		if len(mine) == 0 {
+			continue
+		}
+		n++
+		passes := func(q *flow.Node) bool {
+			if q.Kind != flow.KCond {
+				return false
+			}
+			for _, fs := range mine {
+				if q.Expr.Pos() >= fs.Cond.Pos() && q.Expr.End() <= fs.Cond.End() {
+					return true
+				}
+			}
+			return false
+		}
+		y := y
+		p := g.Path(flow.Search{From: []*flow.Node{g.Entry}, Goal: func(q *flow.Node) bool { return q == y }, Avoid: passes})
+		c.R.Check(p == nil, rule, fmt.Sprintf("minify.Number/%s after its digits were stored#%d", stmtText(as), n), c.pos(as), "the digit loop lies on every path", "the result is extended by "+vid.Name+" bytes on a path that does not run the loop storing them: whatever the input had at those positions becomes part of the number (`15e05` → `15e0`): "+pathStr(c, g, p))
+	}
+	c.R.Floor(rule, "extensions over stored digits", n, 3)
+}
